@@ -833,6 +833,9 @@ class Exec:
                     raise Unsupported("read of %s (%s) @%s" % (name, v.why, line))
                 return v
             env = env.get("__closure_parent__") if isinstance(env, dict) else None
+        if name == "super" and fr.finfo is not None and fr.finfo.cls is not None and "self" in fr.env:
+            owner, me = fr.finfo.cls, fr.env["self"]
+            return Builtin("super", lambda ex, a, k, l: SuperProxy(me, owner))
         v = self.resolve_global(fr, name)
         if v is _MISSING:
             raise Unsupported("unresolved name %s @%s in %s" % (name, line, fr.finfo.qualname if fr.finfo else "<clause>"))
@@ -920,6 +923,16 @@ class Exec:
             return ModRef(dotted)
         if isinstance(obj, DictView):
             return obj.method(self, name, line)
+        if isinstance(obj, SuperProxy):
+            # zero-argument super(): the next definition after the calling method's class in the object's MRO
+            mro = obj.obj.cls.mro() if hasattr(obj.obj.cls, "mro") else []
+            after = False
+            for c in mro:
+                if after and name in c.methods:
+                    return FuncRef(c.methods[name], bound=obj.obj)
+                if c is obj.owner:
+                    after = True
+            raise Unsupported("super().%s not found after %s @%s" % (name, obj.owner.name, line))
         if isinstance(obj, Obj) and name == "__class__" and hasattr(obj.cls, "lookup"):
             return ClassRef(obj.cls)
         if isinstance(obj, Obj) and name == "__dict__":
@@ -1311,6 +1324,12 @@ class Exec:
         return obj
 
 
+
+
+class SuperProxy:
+    def __init__(self, obj, owner):
+        self.obj = obj
+        self.owner = owner
 
 
 class DictView:
